@@ -99,6 +99,15 @@ class UDPTransport(KNXIPTransport):
                     couldnotparseknxip.description,
                     raw.hex(),
                 )
+            except Exception:  # pylint: disable=broad-exception-caught
+                # Last-resort guard: this runs in the protocol's datagram callback,
+                # where an unforeseen parsing error must not escape.
+                logger.exception(
+                    "Unexpected error parsing KNX/IP frame from %s:%s: %s",
+                    source[0],
+                    source[1],
+                    raw.hex(),
+                )
             else:
                 knx_logger.debug(
                     "Received from %s:%s: %s",
